@@ -1081,9 +1081,10 @@ Proof.
   destruct (prepare (bld s) id (bmem id (cached s)) (length (cached s))) as [b' [nm|]] eqn:Ep; simpl in Hp.
   - assert (srv_ok (with_bld (with_jobs s (jremove j (jobs s))) b')) as Hok.
     { split; [exact Hc|]. split; [apply jremove_Forall; exact Hj|]. exact Hp. }
+    destruct (negb (ovl_ok s)); [exact Hok|].
     destruct (fold_left unpack1 (r_inputs r) _); [|exact Hok].
     destruct (make_dirs _ _ _); [|exact Hok].
-    destruct (existsb _ (r_cwd r)); exact Hok.
+    destruct (_ || _); exact Hok.
   - split; [exact Hc|]. split; [apply jremove_Forall; exact Hj|]. exact Hp.
 Qed.
 
@@ -1137,8 +1138,47 @@ Proof.
     constructor; [exact H1 | apply IH; exact H1].
 Qed.
 
-Lemma server0_ok c : srv_ok (server0 c).
+Lemma server1_ok ok c : srv_ok (server1 ok c).
 Proof. repeat split; constructor. Qed.
+
+Lemma server0_ok c : srv_ok (server0 c).
+Proof. apply server1_ok. Qed.
+
+(* no overlay, no job: when the overlay cannot be mounted the job is refused before anything of it is unpacked,
+   created or run - there is no other way to give a job a root *)
+Lemma no_overlay_no_job s j r : ovl_ok s = false ->
+  forall s' nm t1 t2, run_begin s j r <> (s', BRunning nm t1 t2).
+Proof.
+  intros Ho s' nm t1 t2. unfold run_begin.
+  destruct (jlookup j (jobs s)); [|discriminate].
+  destruct (prepare _ _ _ _) as [b' [nm'|]]; [|discriminate].
+  cbn [ovl_ok with_jobs]. rewrite Ho. discriminate.
+Qed.
+
+(* ---- the launcher *)
+Lemma launcher_env_independent senv t c env exe args t' c' env' exe' args' :
+  l_env (spawn_launcher senv t c env exe args) = l_env (spawn_launcher senv t' c' env' exe' args') /\
+  l_env (spawn_launcher senv t c env exe args) = senv.
+Proof. split; reflexivity. Qed.
+
+Lemma in_flat_setenv (l : list (bytes * bytes)) k v : In (k, v) l ->
+  exists pre post, flat_map (fun e => [s_setenv; fst e; snd e]) l = pre ++ [s_setenv; k; v] ++ post.
+Proof.
+  induction l as [|e l IH]; intro H; [destruct H|].
+  destruct H as [->|H].
+  - exists [], (flat_map (fun e => [s_setenv; fst e; snd e]) l). reflexivity.
+  - destruct (IH H) as (p1 & p2 & E). exists ([s_setenv; fst e; snd e] ++ p1), p2.
+    cbn [flat_map]. rewrite E. rewrite <- !app_assoc. reflexivity.
+Qed.
+
+Lemma client_env_after_setenv t c env k v : In (k, v) (client_env env) ->
+  exists pre post, bwrap_argv t c env = pre ++ [s_setenv; k; v] ++ post.
+Proof.
+  intro H. destruct (in_flat_setenv _ _ _ H) as (p1 & p2 & E). unfold bwrap_argv. rewrite E.
+  match goal with |- exists pre post, ?hd ++ _ ++ ?tl = _ => generalize hd, tl end.
+  intros hd tl. exists (hd ++ p1), (p2 ++ tl).
+  repeat rewrite <- app_assoc. reflexivity.
+Qed.
 
 (* a job root handed to a job is builds/<valid id>-<k>/target, and no job that is still running has it *)
 Lemma run_begin_fresh s j r s' nm t1 t2 : run_begin s j r = (s', BRunning nm t1 t2) ->
@@ -1149,9 +1189,10 @@ Proof.
   cbn [cached jobs bld with_jobs].
   destruct (prepare (bld s) id (bmem id (cached s)) (length (cached s))) as [b' [nm'|]] eqn:Ep; [|discriminate].
   apply prepare_spec in Ep as (Hv & Hn & Hl & k & -> & _).
+  destruct (negb (ovl_ok s)); [discriminate|].
   destruct (fold_left unpack1 (r_inputs r) _); [|discriminate].
   destruct (make_dirs _ _ _); [|discriminate].
-  destruct (existsb _ (r_cwd r)); [discriminate|].
+  destruct (_ || _); [discriminate|].
   intro H. inversion H; subst. cbn [bld with_bld with_jobs]. eauto 6.
 Qed.
 
@@ -1169,9 +1210,11 @@ Proof.
   rewrite Hk.
   destruct (prepare (bld s) id _ _) as [b1 [nm|]]; [|discriminate].
   destruct (prepare (bld s') id' _ _) as [b1' [nm'|]]; [|discriminate].
+  destruct (negb (ovl_ok s)); [discriminate|].
+  destruct (negb (ovl_ok s')); [discriminate|].
   destruct (fold_left unpack1 (r_inputs r) _) as [t0|]; [|discriminate].
   destruct (make_dirs t0 (r_cwd r) (r_outs r)) as [t1|]; [|discriminate].
-  destruct (existsb (N.eqb 0) (r_cwd r)); [discriminate|].
+  destruct (_ || _); [discriminate|].
   destruct (collect _ (r_cwd r) (r_outs r)) as [o|]; intros H H'; inversion H; inversion H'; subst; auto.
 Qed.
 
